@@ -17,22 +17,32 @@ type pathTracker struct {
 // if it won't be, based on the linear nature of selector traversals, it wipes
 // the last missing state
 func (pt *pathTracker) stillOnUnfollowedRemotePath(newPath datamodel.Path) bool {
-	// is there a known missing path?
+	// is this the default case where we haven't found any unfollowed paths
 	if pt.lastUnfollowedRemotePath.Len() == 0 {
 		return false
 	}
-	// are we still on it?
-	if newPath.Len() <= pt.lastUnfollowedRemotePath.Len() {
-		// if not, reset to no known missing remote path
+	// we are still on the unfollowed path only while we are strictly below it
+	if !isStrictlyBelow(newPath, pt.lastUnfollowedRemotePath) {
 		pt.lastUnfollowedRemotePath = datamodel.NewPath(nil)
 		return false
 	}
-	// otherwise we're on a missing path
 	return true
 }
 
-// recordRemoteLoadAttempt records the results of attempting to load from the remote
-// at the given path
+// isStrictlyBelow reports whether parent is a proper prefix of path
+func isStrictlyBelow(path datamodel.Path, parent datamodel.Path) bool {
+	if path.Len() <= parent.Len() {
+		return false
+	}
+	segments := path.Segments()
+	for i, seg := range parent.Segments() {
+		if !seg.Equals(segments[i]) {
+			return false
+		}
+	}
+	return true
+}
+
 func (pt *pathTracker) recordRemoteLoadAttempt(currentPath datamodel.Path, action graphsync.LinkAction) {
 	// if the last remote link was missing
 	if !action.DidFollowLink() {
